@@ -175,7 +175,7 @@ def c18(ctx):
     obs, getters = res
     obs += r_desc.rule_fallback(dm, getters)
     obs += r_desc.rule_dispatch(dm, getters)
-    obs += r_lock.rule_notry(ctx.lm)
+    obs += r_lock.rule_notry(ctx.lm, classes=('DESCRIPTOR',))
     d = [b for b in prog.bodies if b.name == r_desc.DESCRIBE]
     if d:
         reach = [prog.by_id[i] for i in sorted(prog.reach([d[0].id]))]
@@ -207,7 +207,7 @@ def c08(ctx):
     obs += r_registry.rule_wdisp(rm, em)
     obs += r_registry.rule_receivers(rm, em)
     obs += r_misc.rule_statics(ctx)
-    obs += r_lock.rule_notry(ctx.lm)
+    obs += r_lock.rule_notry(ctx.lm, classes=('REGISTRY', 'CONTEXT'))
     obs += r_prec.rule_wgate(parse_roles(ctx))
     obs += r_prec.rule_wassoc(ctx.prog)
     return obs, {'analysed': {'writers': len(rm.writers), 'fillers': len(rm.fillers), 'must_init_bodies': len(rm.must_init)}}
@@ -231,7 +231,7 @@ def c13(ctx):
     obs += o2
     obs += r_lock.rule_once(lm)
     obs += r_lock.rule_escape(lm)
-    obs += r_lock.rule_notry(lm)
+    obs += r_lock.rule_notry(lm, classes=('REGISTRY', 'CONTEXT'))
     obs += r_lock.rule_floors(lm)
     return obs, {'analysed': {'guard_live_call_sites': n, 'statics': len(ctx.facts.statics)}}
 
@@ -308,7 +308,7 @@ def c06(ctx):
     obs += r_ctx.rule_chain(prog, em)
     obs += r_order.rule_o4(em, ('child', 'handler'))
     rows, probs = r_table.builtin_rows(prog, reg_model(ctx))
-    obs += [o for o in r_top.rule_top(prog, rows) if o.key.startswith('TOP|floor') or o.key.split('|')[-1].endswith('=') or 'cover' in o.key]
+    obs += r_top.rule_compound(prog, rows)
     return obs, {'analysed': {'evaluator_bodies': len(em.bodies)}}
 
 
@@ -356,7 +356,7 @@ def c09(ctx):
     obs = r_num.rule_tychain(prog, roles)
     bodies = r_num.number_scope(prog, roles, em)
     obs += r_num.rule_wfloat(bodies)
-    obs += [o for o in r_nowrap.rule_nowrap([b for b in bodies if not b.name.startswith('value::Value::')], rule='NUMPATH') if o.status == 'violated' and ('|lossy:' in o.key or '|cast:' in o.key)]
+    obs += [o for o in r_nowrap.rule_nowrap([b for b in bodies if not b.name.startswith('value::Value::')], rule='NUMPATH') if o.status == 'violated' and '|lossy:' in o.key]
     obs += r_num.rule_intfast(bodies)
     obs += r_num.rule_literal_path(prog, roles, em)
     obs += r_value.rule_tacc(prog)
@@ -478,7 +478,9 @@ def c10(ctx):
     if any(o.status == 'violated' for o in obs):
         return obs, {}
     sm, sobs = slice_model(ctx)
-    obs += sobs
+    # only what concerns tokens: the constructor invariant and the slices that feed a token (TSPAN
+    # re-derives the boundary proofs for text and span); other slices of the parse path are C01's
+    obs += [o for o in sobs if o.key.startswith(('SLICE|ctor', 'SLICE|fields', 'SLICE|reassign', 'SLICE|floor'))]
     obs += r_token.rule_tspan(sm, roles)
     obs += r_token.rule_tws(tok_roles(ctx))
     obs += r_prec.rule_munch(roles, tok_roles(ctx).tm)
@@ -523,5 +525,5 @@ def c02(ctx):
     obs += r_prec.rule_wtern(roles)
     obs += r_prec.rule_wgate(roles)
     obs += r_prec.rule_wassoc(ctx.prog)
-    obs += r_prec.rule_wpostfix(roles)
+    obs += [o for o in r_prec.rule_wpostfix(roles) if '|gate|' not in o.key]
     return obs, {'analysed': {'registered_rows': len(rows)}}
